@@ -75,17 +75,17 @@ class Outcome(object):
     pass
 
 
-def execute(prog, plan=None, rnd=None, switch_prob=0.0, files=None, close_prog=False):
+def execute(prog, plan=None, rnd=None, switch_prob=0.0, files=None, close_prog=False, pct=None):
     """one execution of a program under one schedule -> Outcome"""
     import gc
     gc.disable()
     try:
-        return _execute(prog, plan, rnd, switch_prob, files)
+        return _execute(prog, plan, rnd, switch_prob, files, pct)
     finally:
         gc.enable()
 
 
-def _execute(prog, plan=None, rnd=None, switch_prob=0.0, files=None):
+def _execute(prog, plan=None, rnd=None, switch_prob=0.0, files=None, pct=None):
     out = Outcome()
     z = prog.get('z')
     hs = dict(extra=[('Sec-WebSocket-Extensions', z)]) if z else {}
@@ -118,7 +118,7 @@ def _execute(prog, plan=None, rnd=None, switch_prob=0.0, files=None):
             for call in prog.get('pre', ()):
                 # single-threaded set-up actions before the scheduled phase (e.g. the client has already closed)
                 getattr(ws, call[0])(*call[1:])
-            s = sched.Scheduler(plan=plan, rnd=rnd, switch_prob=switch_prob, files=files)
+            s = sched.Scheduler(plan=plan, rnd=rnd, switch_prob=switch_prob, files=files, pct=pct)
             w.yield_hook = lambda tag: (out.__dict__.__setitem__('mid', out.__dict__.get('mid', 0) + 1), s.yield_point(tag))
             w.thread_name = lambda: s.current.name if s.current else 'main'
             records = []
@@ -355,7 +355,7 @@ def cases(tier, seed, i, n):
         names = sorted(PROGRAMS)
         for r in range(30 if tier == 'quick' else 400):
             yield dict(pid='C11', prog=names[(r + i) % len(names)], mode='random', rseed=rnd.randrange(1 << 30), count=15,
-                       prob=rnd.choice((0.02, 0.05, 0.15, 0.4)))
+                       prob=rnd.choice((0.02, 0.05, 0.15, 0.4)), pct=[400, rnd.choice((2, 3, 4))] if r % 2 else None)
     return mine()
 
 
@@ -380,6 +380,10 @@ def run_case(case, acc, programs=None, judge=None, **kw):
         rnd = random.Random(case['rseed'])
         for _ in range(case['count']):
             r2 = random.Random(rnd.randrange(1 << 30))
-            out = execute(prog, rnd=r2, switch_prob=case['prob'], files=None, **kw)
+            if case.get('pct'):
+                out = execute(prog, rnd=r2, files=None, pct=(case['pct'][0], case['pct'][1]), **kw)
+                acc.count2('explore', 'pct_schedules')
+            else:
+                out = execute(prog, rnd=r2, switch_prob=case['prob'], files=None, **kw)
             account(prog, out, judge, acc, dict(case), 'random', None)
             acc.count2('explore', 'random_schedules')
